@@ -335,6 +335,65 @@ fn source_field(op: &Op, ctm: &Mat, w: i32, h: i32) -> Option<Vec<u32>> {
     }
 }
 
+/// Splits a path into its subpaths if they are all polygons (lines only) and their device-space
+/// bounding boxes are pairwise at least two pixels apart; None otherwise.
+fn disjoint_polygons(path: &PathSpec, ctm: &Mat) -> Option<Vec<PathSpec>> {
+    if path.stroke_first.is_some() || path.xf.is_some() || path.flatten.is_some() {
+        return None;
+    }
+    let t = mk::mat(ctm);
+    t.inverse()?;
+    let mut parts: Vec<Vec<Seg>> = Vec::new();
+    for s in &path.segs {
+        match s {
+            Seg::M(..) | Seg::Rect(..) => parts.push(vec![s.clone()]),
+            Seg::L(..) | Seg::Z => match parts.last_mut() {
+                Some(p) if !matches!(p[0], Seg::Rect(..)) => p.push(s.clone()),
+                // a line without a current subpath, or after a rect: not worth untangling
+                _ => return None,
+            },
+            _ => return None,
+        }
+    }
+    if parts.len() < 2 {
+        return None;
+    }
+    let mut boxes = Vec::new();
+    for p in &parts {
+        let mut b = [f32::INFINITY, f32::INFINITY, f32::NEG_INFINITY, f32::NEG_INFINITY];
+        let mut add = |x: f32, y: f32| {
+            let q = t.transform_point(Point::new(x, y));
+            b = [b[0].min(q.x), b[1].min(q.y), b[2].max(q.x), b[3].max(q.y)];
+        };
+        for s in p {
+            match s {
+                Seg::M(x, y) | Seg::L(x, y) => add(x.0, y.0),
+                Seg::Rect(x, y, w, h) => {
+                    add(x.0, y.0);
+                    add(x.0 + w.0, y.0);
+                    add(x.0, y.0 + h.0);
+                    add(x.0 + w.0, y.0 + h.0);
+                }
+                _ => {}
+            }
+        }
+        if !b.iter().all(|v| v.is_finite()) {
+            return None;
+        }
+        boxes.push(b);
+    }
+    for i in 0..boxes.len() {
+        for j in 0..i {
+            let (a, b) = (boxes[i], boxes[j]);
+            let apart = a[2] + 2. <= b[0] || b[2] + 2. <= a[0] || a[3] + 2. <= b[1] || b[3] + 2. <= a[1];
+            if !apart {
+                return None;
+            }
+        }
+    }
+    Some(parts.into_iter().map(|segs| PathSpec::new(path.evenodd, segs)).collect())
+}
+
 fn op_blend(op: &Op) -> u8 {
     match op {
         Op::Clear { .. } => BLEND_SRC,
@@ -700,6 +759,59 @@ pub fn run_tower(prop: Prop, h: &History, st: &mut Stats) -> Outcome {
                             i,
                             format!("{} must draw nothing but changed {}", op.name(), d),
                         );
+                    }
+                }
+                // A path made of polygons whose bounding boxes are apart covers exactly what its
+                // polygons cover one by one: where none of them has any coverage the whole path has
+                // none either (an edge lost by the rasteriser leaks a span across the gap).
+                if let (Some(cov), Op::Fill { path, opts, .. }) = (&cov, op) {
+                    if let Some(parts) = disjoint_polygons(path, &ctm) {
+                        let mut any = vec![false; n];
+                        let mut ok = true;
+                        for part in &parts {
+                            let pop = Op::Fill { path: part.clone(), src: SrcSpec::solid(255, 255, 255, 255), opts: opts.clone() };
+                            match mk::guarded(budget, || coverage_of(&pop, &ctm, w, hh)) {
+                                Ok(Some(c)) => {
+                                    for p in 0..n {
+                                        any[p] |= c[p] != 0;
+                                    }
+                                }
+                                _ => ok = false,
+                            }
+                        }
+                        if ok {
+                            st.count("subpath_additivity_checked");
+                            for p in 0..n {
+                                if cov[p] != 0 && !any[p] {
+                                    return viol(
+                                        if prop == Prop::C02 { "c02.coverage-outside-every-subpath" } else { "c03.coverage-outside-every-subpath" },
+                                        i,
+                                        format!("fill: pixel ({},{}) has coverage {} although none of the path's {} separate polygons covers it", p as i32 % w, p as i32 / w, cov[p], parts.len()),
+                                    );
+                                }
+                            }
+                        }
+                    }
+                }
+                // A dash array of odd length is, by definition, the array repeated twice: the
+                // stroke with the doubled array defines the shape.
+                if let (Some(cov), Op::Stroke { style, .. }) = (&cov, op) {
+                    if style.dash_array.len() % 2 == 1 {
+                        let mut op2 = op.clone();
+                        if let Op::Stroke { style: s2, .. } = &mut op2 {
+                            let d = s2.dash_array.clone();
+                            s2.dash_array.extend(d);
+                        }
+                        if let Ok(Some(c2)) = mk::guarded(budget, || coverage_of(&op2, &ctm, w, hh)) {
+                            st.count("odd_dash_array_checked");
+                            if let Some(p) = (0..n).find(|p| cov[*p] != c2[*p]) {
+                                return viol(
+                                    if prop == Prop::C02 { "c02.odd-dash-array-not-doubled" } else { "c03.odd-dash-array-not-doubled" },
+                                    i,
+                                    format!("stroke: pixel ({},{}) has coverage {} with the odd-length dash array and {} with the same array written out twice", p as i32 % w, p as i32 / w, cov[p], c2[p]),
+                                );
+                            }
+                        }
                     }
                 }
                 // Without antialiasing only the first of the four sample rows of a pixel row is
